@@ -14,7 +14,7 @@ def check(ctx):
     proved = ctx.prove("props/C06.v", ["proofs/IfaceFacts.v", "proofs/ListsFacts.v"])
     ctx.build(["model/Script.vo"])
     rng = random.Random(ctx.seed + 6)
-    res = pa.script_crosscheck(rng, 1500 if ctx.quick else 20000, None if ctx.quick else 2, "c06")
+    res = pa.script_crosscheck(rng, 1500 if ctx.quick else 100000, None if ctx.quick else 2, "c06")
     ctx.count(len(res["cases"]), res["distinct"])
     ctx.notes["script_hist"] = res["hist"]
     for c, e in list(zip(res["cases"], res["exps"]))[:2]:
@@ -24,11 +24,11 @@ def check(ctx):
     for c, e in res["mismatches"][:5]:
         ctx.broke("correspondence:T1-script", f"translated algebra and IoContract disagree on {c} (implementation: {e})")
     mult = 1 if proved and not ctx.broken else 4
-    stats, viol = pa.semantic_search(rng, (1500 if ctx.quick else 30000) * mult)
+    stats, viol = pa.semantic_search(rng, (1500 if ctx.quick else 200000) * mult)
     ctx.count(stats["compose_ok"] + stats["quotient_ok"] + stats["merge_ok"] + stats["rename_ok"] + stats["rejected"],
               stats["distinct_topologies"])
     ctx.notes["semantic_search"] = stats
-    tried, viol2 = pa.meaningless_not_rejected(rng, (600 if ctx.quick else 10000) * mult)
+    tried, viol2 = pa.meaningless_not_rejected(rng, (600 if ctx.quick else 60000) * mult)
     ctx.notes["meaningless_requests_tried"] = tried
     ctx.count(sum(tried.values()), 0)
     for v in viol + viol2:
